@@ -108,6 +108,45 @@ LOWERED_ATTRS = {
 NAME_KEYED = ("attr_dict", "param_dict")
 
 
+def _returned_list_lowered(py, f2, index: int, depth: int) -> bool:
+    """every element that f2 puts into the list it returns (as element `index` of the returned tuple) is lower-case:
+    a constant, the variable of a loop over constants, or text that has passed .lower()"""
+    names = set()
+    for v in astq.returns(f2):
+        if isinstance(v, ast.Tuple) and len(v.elts) > index:
+            v = v.elts[index]
+        if isinstance(v, ast.Name):
+            names.add(v.id)
+        elif isinstance(v, (ast.List, ast.Tuple)):
+            if not all(_lowered(py, f2, x, depth + 1) for x in v.elts):
+                return False
+        else:
+            return False
+    if not names:
+        return True
+    ok = True
+    for n in ast.walk(f2):
+        if isinstance(n, ast.Call) and isinstance(n.func, ast.Attribute) and isinstance(n.func.value, ast.Name) and \
+                n.func.value.id in names and n.func.attr in ("append", "insert", "extend") and n.args:
+            x = n.args[-1]
+            if isinstance(x, ast.Name):
+                # the variable of a loop over literal constants is as lower-case as the constants
+                its = [st.iter for st in ast.walk(f2) if isinstance(st, (ast.For, ast.comprehension)) and
+                       isinstance(st.target, ast.Name) and st.target.id == x.id]
+                if its and all(isinstance(i, (ast.List, ast.Tuple)) and all(isinstance(c, ast.Constant) and isinstance(c.value, str)
+                                                                            and c.value == c.value.lower() for c in i.elts) for i in its):
+                    continue
+            ok = ok and _lowered(py, f2, x, depth + 1)
+        elif isinstance(n, ast.Assign) and any(isinstance(t, ast.Name) and t.id in names for t in n.targets):
+            if isinstance(n.value, (ast.List, ast.Tuple)):
+                ok = ok and all(_lowered(py, f2, x, depth + 1) for x in n.value.elts)
+            elif isinstance(n.value, ast.ListComp):
+                ok = ok and _lowered(py, f2, n.value.elt, depth + 1)
+            else:
+                ok = False
+    return ok
+
+
 def _lowered(py, fn, e: ast.AST, depth=0) -> bool:
     if depth > 6:
         return False
@@ -123,8 +162,7 @@ def _lowered(py, fn, e: ast.AST, depth=0) -> bool:
         for n in ast.walk(fn):
             if isinstance(n, ast.Assign) and "self.attribs" in ast.unparse(n.targets[0]) and \
                     isinstance(n.value, ast.Call) and call_name(n.value) == "_list_of_procedure_attributes":
-                f2 = py.func("sourceform._list_of_procedure_attributes")
-                return "attribute_string = attribute_string.lower()" in ast.unparse(f2)
+                return _returned_list_lowered(py, py.func("sourceform._list_of_procedure_attributes"), 0, depth)
     if isinstance(e, ast.Attribute) and e.attr == "attr_dict":
         # the attribute table holds lower-case text iff every value recorded into it is lower-cased where it is recorded
         key = "_attr_dict_lowered"
@@ -387,29 +425,49 @@ def r4_container_matrix(ctx, rep):
         dest = [c.dest for c in arm.constructs][0]
         ok = dest not in py.hasattr_set(cls) and len(arm.errors) >= 1
         rep.ob(f"{cls} rejects nested {rname[:-3].lower()}", ok, "", py.nloc(arm.test), nontrivial=False)
-    # procedures need CONTAINS in a code unit
+    # procedures need CONTAINS in a code unit: the flag is the loop-carried name that the CONTAINS arm sets to True
+    flag = None
+    for st in ast.walk(ast.Module(body=cs.arm_by_literal("contains").body, type_ignores=[])):
+        if isinstance(st, ast.Assign) and isinstance(st.targets[0], ast.Name) and isinstance(st.value, ast.Constant) and st.value.value is True:
+            flag = st.targets[0].id
+    if flag is None:
+        raise AnalysisError("the CONTAINS arm sets no flag")
     for rname in ("SUBROUTINE_RE", "FUNCTION_RE"):
         arm = cs.arm_by_regex(rname)
-        body = ast.unparse(ast.Module(body=arm.body, type_ignores=[]))
-        ok = "isinstance(self, FortranCodeUnit) and (not incontains)" in body
-        rep.ob(f"{rname[:-3].lower()} before CONTAINS in a code unit is an error", ok, "", py.nloc(arm.test))
+        ok = any(re.search(rf"\bnot \(?{flag}\b", c) for _msg, conds in arm.errors for c in conds)
+        rep.ob(f"{rname[:-3].lower()} before CONTAINS in a code unit is an error", ok,
+               f"the arm raises while `{flag}` is false", py.nloc(arm.test))
     # interfaces are flattened into generic / abstract / explicit lists
     arm = cs.arm_by_regex("INTERFACE_RE")
-    body = ast.unparse(ast.Module(body=arm.body, type_ignores=[]))
-    ok = re.search(r"if intr\.abstract:\s+self\.absinterfaces\.extend\(intr\.contents\)\s+elif intr\.generic:\s+self\.interfaces\.append\(intr\)\s+else:\s+self\.interfaces\.extend\(intr\.contents\)", body) is not None
-    rep.ob("interface blocks are flattened into abstract / generic / explicit lists", ok, "", py.nloc(arm.test))
-    # attribute statements before argument matching (also C04.R3)
+    ev = [e for e in astq.trace_block(arm.body, cs.fn) if e.kind == "call" and isinstance(e.node.func, ast.Attribute)
+          and e.node.func.attr in ("append", "extend") and e.node.args]
+    def put(lst, how, what, cond, neg=()):
+        return any(ast.unparse(e.node.func.value) == f"self.{lst}" and e.node.func.attr == how and what in ast.unparse(e.node.args[0])
+                   and any(cond in c and not c.startswith("not") for c in e.cond_texts())
+                   and not any(n in c and not c.startswith("not") for c in e.cond_texts() for n in neg) for e in ev)
+    ok = put("absinterfaces", "extend", ".contents", ".abstract") and put("interfaces", "append", "", ".generic", (".abstract",)) and \
+        any(ast.unparse(e.node.func.value) == "self.interfaces" and e.node.func.attr == "extend" and ".contents" in ast.unparse(e.node.args[0])
+            and not any((".generic" in c or ".abstract" in c) and not c.startswith("not") for c in e.cond_texts()) for e in ev)
+    rep.ob("interface blocks are flattened into abstract / generic / explicit lists", ok,
+           "abstract -> absinterfaces.extend(contents); generic -> interfaces.append(block); explicit -> interfaces.extend(contents)",
+           py.nloc(arm.test))
+    # attribute statements before argument matching (also C04.R3): the inherited clean-up (which applies the attribute
+    # statements) runs before the first statement that takes dummy arguments out of self.variables
     fp = py.func("FortranProcedure._cleanup")
-    first = [s for s in fp.body if not (isinstance(s, ast.Expr) and isinstance(s.value, ast.Constant))][0]
-    ok = "super()._cleanup()" in ast.unparse(first)
+    def top_index(pred):
+        return next((i for i, st in enumerate(fp.body) if any(pred(n) for n in ast.walk(st))), None)
+    i_super = top_index(lambda n: isinstance(n, ast.Call) and call_name(n) == "super()._cleanup")
+    i_take = top_index(lambda n: (isinstance(n, ast.Call) and isinstance(n.func, ast.Attribute) and n.func.attr in ("remove", "pop")
+                                  and ast.unparse(n.func.value) == "self.variables")
+                       or (isinstance(n, ast.Assign) and any(ast.unparse(t) == "self.variables" for t in n.targets)))
+    if i_super is None or i_take is None:
+        raise AnalysisError("FortranProcedure._cleanup: inherited clean-up or argument matching not found")
+    ok = i_super < i_take
     rep.ob("attribute statements are applied before dummy arguments are matched", ok,
            "process_attribs runs while the dummy arguments are still in self.variables" if ok else
            "FortranProcedure._cleanup matches (and removes) dummy arguments before super()._cleanup() applies attribute "
            "statements: `intent(in) :: n` / `dimension x(n)` written as separate statements are dropped for arguments",
            py.nloc(fp))
-    ff = py.func("FortranFunction._cleanup")
-    ok = ast.unparse(ff.body[-1]) == "super()._cleanup()"
-    rep.ob("function result is matched before the common clean-up", ok, "", py.nloc(ff), nontrivial=False)
     # masking before case folding (shared with C02.R4)
     from . import c02
     c02.r4_masking(ctx, rep)
@@ -445,9 +503,11 @@ def r5_character_slots(ctx, rep):
                    f"positional kind 4 matches the length pattern and replaces the length", py.nloc(st))
     if n < 4:
         raise AnalysisError(f"parse_type: only {n} slot assignments found")
-    t = ast.unparse(fn)
-    ok = "if length is None:\n" in t and "length = '1'" in t
-    rep.ob("parse_type: default character length is 1", ok, "", py.nloc(fn), nontrivial=False)
+    ok = any(isinstance(i, ast.If) and isinstance(i.test, ast.Compare) and isinstance(i.test.ops[0], ast.Is)
+             and ast.unparse(i.test.left) == "length" and any(
+                 isinstance(a, ast.Assign) and ast.unparse(a.targets[0]) == "length" and isinstance(a.value, ast.Constant)
+                 and str(a.value.value) == "1" for a in i.body) for i in ast.walk(fn))
+    rep.ob("parse_type: default character length is 1", ok, "a missing length is filled with 1", py.nloc(fn), nontrivial=False)
 
 
 
@@ -480,11 +540,19 @@ def r6_order_bearing_collections(ctx, rep):
                f"documented as `solve(matrix, n, tolerance)`", py.nloc(fn))
 
 
+
+def r7_keywords_are_whole_words(ctx, rep):
+    """prefix / attribute keywords are recognised as whole words, never by a substring test on the statement text
+    (generic rule; shared with C07 and C18, whose result types and headings are derived from the same text)"""
+    from . import common
+    common.keyword_substring(ctx, rep)
+
 RULES = [
     RuleSpec("C01.R5", r5_character_slots, "character selector slots are filled at most once", floor=2),
     RuleSpec("C01.R1", r1_case_neutral, "case-neutral recognition", floor=24),
     RuleSpec("C01.R2", r2_lower_discipline, "lower-case discipline for keyword comparisons", floor=25),
     RuleSpec("C01.R4", r4_container_matrix, "container x construct matrix", floor=50),
     RuleSpec("C01.R3", r3_dispatch_matrix, "dispatch matrix vs statement-head languages", floor=151),
+    RuleSpec("C01.R7", r7_keywords_are_whole_words, "keywords are recognised as whole words", floor=1),
     RuleSpec("C01.R6", r6_order_bearing_collections, "order-bearing collections are never sorted", floor=2),
 ]
